@@ -832,3 +832,10 @@ func init() {
 			Old: "e.s.reset(nil, w, opts...)", New: "e.s.reset(nil, w)", Rule: "OPT-9"},
 	)
 }
+
+func init() {
+	addMutants(
+		Mutant{ID: "cycle2-self-pointer-guard-dropped", Props: []string{"C20", "C09"}, File: "arshal_default.go", Func: "makeInterfaceArshaler",
+			Old: "if va.IsNil() || isSelfPointer(va) {", New: "if va.IsNil() {", Rule: "CYCLE-2"},
+	)
+}
